@@ -34,6 +34,11 @@ namespace OP2Utility::Stream
 		file.read(static_cast<char*>(buffer), size);
 		// Check stream flags for errors
 		if (!file) {
+			// Leave the stream usable: clear the error flags (a set failbit makes every later
+			// seek, tell and read fail) and return to the position the failed read started from
+			const auto bytesRead = file.gcount();
+			file.clear();
+			file.seekg(-bytesRead, std::ios_base::cur);
 			throw std::runtime_error("Error reading from file");
 		}
 	}
@@ -41,7 +46,13 @@ namespace OP2Utility::Stream
 	std::size_t FileReader::ReadPartial(void* buffer, std::size_t size) noexcept {
 		file.read(static_cast<char*>(buffer), size);
 		// Note: number of unformatted bytes read, up to size, must fit within a size_t
-		return static_cast<std::size_t>(file.gcount());
+		const auto bytesRead = static_cast<std::size_t>(file.gcount());
+		if (!file) {
+			// A short read at the end of the file sets eofbit and failbit. Clear them so the
+			// stream stays usable (positioned at the end of the file)
+			file.clear();
+		}
+		return bytesRead;
 	}
 
 	uint64_t FileReader::Length() {
